@@ -331,8 +331,16 @@ def bounds(ctx, prog):
                 if p.kind == "return" and (("holds", test) not in p.conds or p.value != P):
                     msg = "returns %s, expected the position once the boundary test on it succeeds" % show(p.value)
                 for e in p.events:
-                    if e[0] == "loop" and dict(e[2]).get(pos) != ("bin", "SatSub", ("p", 2), Int(1)):
-                        msg = "search does not start from position.saturating_sub(1): %s" % show(dict(e[2]).get(pos, ("?",)))
+                    if e[0] != "loop":
+                        continue
+                    v0 = dict(e[2]).get(pos)
+                    one = Int(1)
+                    # position.saturating_sub(1), in one term or spelled as a case split (checked_sub + match, if position == 0 ..)
+                    ok0 = v0 == ("bin", "SatSub", ("p", 2), one) \
+                        or (v0 == ("bin", "Sub", ("p", 2), one) and any(c in p.conds for c in (table.le(one, ("p", 2)), table.ne(("p", 2), Int(0)), table.lt(Int(0), ("p", 2))))) \
+                        or (v0 == Int(0) and any(c in p.conds for c in (table.lt(("p", 2), one), table.eq(("p", 2), Int(0)), table.le(("p", 2), Int(0)))))
+                    if not ok0:
+                        msg = "search does not start from position.saturating_sub(1): %s" % show(v0 or ("?",))
         if msg:
             ctx.violation("TAB-BOUND", key, "%s %s" % (fn, msg), b.file())
         ctx.instance("TAB-BOUND", key, sample={"fn": fn, "step": step})
